@@ -651,6 +651,11 @@ pub fn batch(prop: &dyn Property, opts: &BatchOpts) -> i32 {
             let (min, res, evals) = minimise(prop, &mut pool, case, class, &known, 300);
             let (mclass, mdetail) = match &res.verdict {
                 Verdict::Violation { class, detail } => (class.clone(), detail.clone()),
+                _ if class == "hang" => {
+                    // a wall-clock limit that is not exceeded again was machine load, not a hang
+                    *a.inconclusive.entry("timeout (not reproduced)".into()).or_insert(0) += 1;
+                    continue;
+                }
                 other => {
                     // did not reproduce in a fresh process: harness problem, not a verdict
                     a.harness.push(format!(
